@@ -11,14 +11,14 @@
 //!    the input text; unknown extra fields never make it fail;
 //!  * `Raw<T>` returns the original text byte for byte, `get_field` agrees with a full parse and `deserialize` with
 //!    `from_str`.
-//! Family: 28 event types (room state, message-like, ephemeral, account data, to-device) with every optional field of a
+//! Family: 36 event type shapes (room state, message-like, ephemeral, account data, to-device) with every optional field of a
 //! per-type list present/absent one at a time and all together, an unknown field added, keys in sorted and in reversed
 //! order, original and redacted, full and sync format, plus unknown event types of every kind.
 use std::collections::HashSet;
 
 use ruma_common::serde::Raw;
 use ruma_events::{
-    AnyEphemeralRoomEvent, AnyGlobalAccountDataEvent, AnyMessageLikeEventContent, AnyStateEvent, AnyStateEventContent, AnyStrippedStateEvent, AnySyncTimelineEvent,
+    AnyToDeviceEventContent, AnyEphemeralRoomEvent, AnyGlobalAccountDataEvent, AnyMessageLikeEventContent, AnyStateEvent, AnyStateEventContent, AnyStrippedStateEvent, AnySyncTimelineEvent,
     AnyTimelineEvent, AnyToDeviceEvent, EventContentFromType,
 };
 use serde::de::{Deserializer, MapAccess, SeqAccess, Visitor};
@@ -113,6 +113,10 @@ fn schemas() -> Vec<Schema> {
         s("m.sticker", Kind::Message, json!({"body": "s", "info": {"h": 1, "w": 2}, "url": "mxc://s/st"}), vec![]),
         s("m.room.encrypted", Kind::Message, json!({"algorithm": "m.megolm.v1.aes-sha2", "ciphertext": "abc", "sender_key": "k", "device_id": "D", "session_id": "S"}), vec![]),
         s("m.call.hangup", Kind::Message, json!({"call_id": "c", "version": 0}), vec![("reason", json!("user_hangup"))]),
+        s("m.key.verification.start", Kind::Message, json!({"from_device": "D", "method": "m.sas.v1", "key_agreement_protocols": ["curve25519-hkdf-sha256"], "hashes": ["sha256"],
+            "message_authentication_codes": ["hkdf-hmac-sha256.v2"], "short_authentication_string": ["decimal", "emoji"], "m.relates_to": {"rel_type": "m.reference", "event_id": "$req:s"}}), vec![]),
+        s("m.key.verification.cancel", Kind::Message, json!({"code": "m.user", "reason": "r", "m.relates_to": {"rel_type": "m.reference", "event_id": "$req:s"}}), vec![]),
+        s("m.key.verification.done", Kind::Message, json!({"m.relates_to": {"rel_type": "m.reference", "event_id": "$req:s"}}), vec![]),
         s("m.reaction", Kind::Message, json!({"m.relates_to": {"rel_type": "m.annotation", "event_id": "$e", "key": "x"}}), vec![]),
         s("m.room.redaction", Kind::Message, json!({}), vec![("reason", json!("spam")), ("redacts", json!("$x"))]),
         s("m.typing", Kind::Ephemeral, json!({"user_ids": ["@a:s"]}), vec![]),
@@ -120,6 +124,12 @@ fn schemas() -> Vec<Schema> {
         s("m.direct", Kind::Account, json!({"@a:s": ["!r:s"]}), vec![]),
         s("m.ignored_user_list", Kind::Account, json!({"ignored_users": {"@b:s": {}}}), vec![]),
         s("m.dummy", Kind::ToDevice, json!({}), vec![]),
+        s("m.key.verification.start", Kind::ToDevice, json!({"from_device": "D", "method": "m.sas.v1", "key_agreement_protocols": ["curve25519-hkdf-sha256"], "hashes": ["sha256"],
+            "message_authentication_codes": ["hkdf-hmac-sha256.v2"], "short_authentication_string": ["decimal", "emoji"], "transaction_id": "t1"}), vec![]),
+        s("m.key.verification.start", Kind::ToDevice, json!({"from_device": "D", "method": "m.reciprocate.v1", "secret": "c2VjcmV0", "transaction_id": "t1"}), vec![]),
+        s("m.key.verification.request", Kind::ToDevice, json!({"from_device": "D", "methods": ["m.sas.v1"], "timestamp": 5, "transaction_id": "t1"}), vec![]),
+        s("m.room_key_request", Kind::ToDevice, json!({"action": "request_cancellation", "request_id": "r", "requesting_device_id": "D"}), vec![]),
+        s("m.secret.request", Kind::ToDevice, json!({"action": "request", "name": "m.megolm_backup.v1", "request_id": "r", "requesting_device_id": "D"}), vec![]),
         s("org.example.unknown", Kind::State, json!({"anything": [1, {"x": null}]}), vec![("more", json!("x"))]),
         s("org.example.unknown.msg", Kind::Message, json!({"anything": 1}), vec![]),
         s("org.example.unknown.eph", Kind::Ephemeral, json!({"anything": 1}), vec![]),
@@ -354,7 +364,7 @@ fn check_event(acc: &mut Acc, s: &Schema, label: &str, content: &Value, redacted
             },
         }
         // ---- content fixpoint (original contents of room events)
-        if !redacted && !is_unknown && matches!(s.kind, Kind::State | Kind::Message) {
+        if !redacted && !is_unknown && matches!(s.kind, Kind::State | Kind::Message | Kind::ToDevice) {
             let mut ctext = String::new();
             render(content, reversed, &mut ctext);
             let mut ctext_other = String::new();
@@ -364,6 +374,8 @@ fn check_event(acc: &mut Acc, s: &Schema, label: &str, content: &Value, redacted
             let ser = |raw: &RawValue| -> Result<String, String> {
                 if s.kind == Kind::State {
                     AnyStateEventContent::from_parts(s.ty, raw).map_err(|e| e.to_string()).and_then(|c| serde_json::to_string(&c).map_err(|e| e.to_string()))
+                } else if s.kind == Kind::ToDevice {
+                    AnyToDeviceEventContent::from_parts(s.ty, raw).map_err(|e| e.to_string()).and_then(|c| serde_json::to_string(&c).map_err(|e| e.to_string()))
                 } else {
                     AnyMessageLikeEventContent::from_parts(s.ty, raw).map_err(|e| e.to_string()).and_then(|c| serde_json::to_string(&c).map_err(|e| e.to_string()))
                 }
@@ -468,7 +480,7 @@ pub fn run(_tier: &str) -> Report {
         acc.samples.clone(),
     ));
     Report {
-        bound: format!("{} events: 33 event types (28 specified + 5 unknown, of every kind) x content shapes (required only, each optional field, all optional fields, an unknown field) x original/redacted x sorted/reversed key order, each also in sync / state / stripped format where applicable", acc.n),
+        bound: format!("{} events: 41 event type shapes (36 specified + 5 unknown, of every kind) x content shapes (required only, each optional field, all optional fields, an unknown field) x original/redacted x sorted/reversed key order, each also in sync / state / stripped format where applicable", acc.n),
         cases: acc.n,
         obligations: vec![
             ("typed_deserialization_dispatches_by_type_and_exposes_the_json_fields", acc.n, acc.f_parse),
